@@ -59,8 +59,8 @@ ARENA_GENS = {
 }
 
 COLL_GENS = {
-    "C13": ["single", "pairs", "random"],
-    "C15": ["single", "pairs", "random"],
+    "C13": ["single", "pairs", "random", "growth"],
+    "C15": ["single", "pairs", "random", "growth"],
     "C16": ["panics", "random-panics"],
     "C17": ["single", "pairs", "random"],
 }
@@ -127,12 +127,14 @@ def plan_for(pid, tier, seed):
         for prof in ("dbg", "rel"):
             jobs += tj("multi_driver", "multi", tier, prof, seed, 2 if tier == "quick" else 4, ["ArenaMonitor", "ArenaTrace"],
                        monitors_sync=["ThreadsTrace"], monitors_iso=["Isolation"])
+        # every single-arena history also decides "the shared empty chunk is never written"
+        jobs += arena_corpus(tier, seed, ["history"])
         return dict(level="model_checking", traces=jobs, special=[],
                     mc=[dict(module="Threads", cfg="Threads", workers=8, timeout=900)],
                     assumptions=["TLC", "footer-store hook (__verif::footer_store) sees every store into a chunk footer",
                                  "data races only on crate-level shared state (chunk footers, the static empty chunk); reads are not hooked"])
     if pid == "C14":
-        return dict(level="model_checking", mc=[], traces=str_corpus(tier, seed, ["sops", "decoders", "srandom"]), special=[],
+        return dict(level="model_checking", mc=[], traces=str_corpus(tier, seed, ["sops", "decoders", "srandom", "snogrow"]), special=[],
                     assumptions=["TLC and the Json/IOUtils community modules",
                                  "the reference semantics Str.tla incl. the transcribed UTF-8/UTF-16 decoders (cross-validated against std on every input)"])
     if pid == "C16":
@@ -143,7 +145,7 @@ def plan_for(pid, tier, seed):
                                  "exactly one programmed panic per call (a second panic while unwinding aborts; outside the property)"])
     if pid in COLL_GENS:
         extra = []
-        if pid in ("C13", "C15"):
+        if pid in ("C13", "C15", "C17"):
             for prof in ("dbg", "rel"):
                 extra += tj("collx_driver", "zst", tier, prof, seed, 1, ["CollTrace"], max_events=25000)
                 if pid == "C13":
@@ -158,7 +160,11 @@ def plan_for(pid, tier, seed):
                 "C03": ["ArenaGen_quick3"], "C06": ["ArenaGen_quick3"], "C08": ["ArenaGen_quick3"]}.get(pid, [])
         if tier == "thorough" and pid in ("C01", "C04", "C12"):
             gens = gens + ["ArenaGen_quick"]
-        return dict(level="model_checking", mc=arena_mc(pid, tier), traces=arena_corpus(tier, seed, ARENA_GENS[pid]),
+        traces = arena_corpus(tier, seed, ARENA_GENS[pid])
+        if pid == "C18":
+            # the collections' amortised growth on top of the arena's
+            traces = traces + coll_corpus(tier, seed, ["growth"])
+        return dict(level="model_checking", mc=arena_mc(pid, tier), traces=traces,
                     special=[replay.make_job(g) for g in gens],
                     assumptions=["TLC and the Json/IOUtils community modules",
                                  "the harness's recording global allocator (deterministic address map)",
